@@ -703,9 +703,13 @@ func rejectGuards(fn *ssa.Function) []guard {
 				// `return n, err` with err the untested error of a call made in this block: the same decision as
 				// `if err != nil { return n, err }; return n, nil`
 				if call := untestedCallError(last); call != nil && !isLocalHelper(fn, call.Call.StaticCallee()) {
-					dec := deciderOf(stripIface(lastStoreInBlock(last))) + " != nil"
+					ev := stripIface(lastStoreInBlock(last))
+					if _, isPhi := ev.(*ssa.Phi); isPhi {
+						ev = call // (wrapped on the failing edge: named by the call whose error it is)
+					}
+					dec := deciderOf(ev) + " != nil"
 					if !strings.HasPrefix(dec, "round.Helper.BroadcastMessage") && !strings.HasPrefix(dec, "round.Helper.SendMessage") {
-						out = append(out, guard{fn: fn, ret: x, decider: dec, fields: guardFields(fn, stripIface(lastStoreInBlock(last))), cond: stripIface(lastStoreInBlock(last)), pos: call.Pos()})
+						out = append(out, guard{fn: fn, ret: x, decider: dec, fields: guardFields(fn, ev), cond: ev, pos: call.Pos()})
 					}
 				}
 				continue
@@ -1667,6 +1671,23 @@ func untestedCallError(v ssa.Value) *ssa.Call { return untestedCallErrorBut(v, n
 
 func untestedCallErrorBut(v ssa.Value, allowed ssa.Value) *ssa.Call {
 	v = stripIface(lastStoreInBlock(v))
+	// `err = f(); if err != nil { err = fmt.Errorf("...: %w", err) }; ...; return x, err`: still f's error handed on (wrapped
+	// on the failing edge only)
+	if ph, isPhi := v.(*ssa.Phi); isPhi && len(ph.Edges) == 2 {
+		for i := 0; i < 2; i++ {
+			base, other := ph.Edges[i], ph.Edges[1-i]
+			var call *ssa.Call
+			switch x := stripIface(base).(type) {
+			case *ssa.Call:
+				call = x
+			case *ssa.Extract:
+				call, _ = x.Tuple.(*ssa.Call)
+			}
+			if call != nil && !freshError(stripIface(base)) && wrapsValue(other, base) {
+				return call
+			}
+		}
+	}
 	var call *ssa.Call
 	switch x := v.(type) {
 	case *ssa.Call:
